@@ -121,10 +121,14 @@ func (e *Exec) scenarioShape(path string, t types.Type, a string) ([]altFn, bool
 			outT := w.namedType("pkg/generator", "output")
 			fileT := w.namedType("pkg/codegen", "File")
 			var tags []Val
-			jsonOnly := false
+			jsonOnly, registered := false, false
 			for _, tg := range args {
 				if tg == "@jsononly" { // not a tag: the formatter list without --extra-imports
 					jsonOnly = true
+					continue
+				}
+				if tg == "@registered" { // not a tag: the generator knows its own document and output
+					registered = true
 					continue
 				}
 				tags = append(tags, atom("tag:"+tg))
@@ -169,7 +173,23 @@ func (e *Exec) scenarioShape(path string, t types.Type, a string) ([]altFn, bool
 			gr := s.alloc(mkStruct(genT, map[string]Val{"config": cfg, "warner": Opaque{Tag: "warner", Typ: strFn}, "caser": cr, "formatters": SliceV{Arr: far, Len_: len(fmts), Cap: len(fmts)}}))
 			delete(s.Fresh, gr.Cell)
 			s.CellTypes[gr.Cell] = genT
-			sg := mkStruct(p.Elem(), map[string]Val{"Generator": gr, "output": or})
+			sgFields := map[string]Val{"Generator": gr, "output": or}
+			if registered {
+				// schema with an id, registered in the generator's outputs under that id
+				schT := w.namedType("pkg/schemas", "Schema")
+				sr := s.alloc(mkStruct(schT, map[string]Val{"ID": atom("schema.ID")}))
+				delete(s.Fresh, sr.Cell)
+				s.CellTypes[sr.Cell] = schT
+				om := s.alloc(&MapAgg{Tag: "outputs", Keys: []Val{atom("schema.ID")}, Vals: []Val{or}})
+				delete(s.Fresh, om.Cell)
+				ga := s.Heap[gr.Cell].(*Agg)
+				if i := structFieldIndex(ga.Typ, "outputs"); i >= 0 {
+					s.Heap[gr.Cell] = ga.with(i, MapV{Cell: om.Cell})
+				}
+				sgFields["schema"] = sr
+				sgFields["schemaFileName"] = atom("schemaFileName")
+			}
+			sg := mkStruct(p.Elem(), sgFields)
 			r := s.alloc(sg)
 			delete(s.Fresh, r.Cell)
 			s.CellTypes[r.Cell] = p.Elem()
